@@ -81,7 +81,7 @@ func (h *huffmanOnly) encodeBlock(final bool, flush bool) error {
 	for num < h.offset {
 		h.buf.Sync()
 		num += optimizedEncodeBytes(&h.hist, h.buffer[num:h.offset], &h.buf)
-		if num == h.offset && flush {
+		if num == h.offset && final {
 			h.buf.flushLastByte()
 		}
 		_, err := h.w.Write(h.buf.output[:h.buf.idx])
